@@ -903,3 +903,12 @@ func Value(v frontend.Variable) *big.Int {
 	setConst(&x.E, v)
 	return x.Big()
 }
+
+// AcceptedHonestly: the execution was accepted AND every honest hint function produced its
+// outputs. When an honest hint refuses its inputs the engine carries on with a total
+// fallback (acceptance is existential over hint outputs, which is what must-reject sweeps
+// need); for "a valid input must be accepted" judgements that is not good enough: the real
+// prover only has the repository's hint functions.
+func (r Result) AcceptedHonestly() bool {
+	return r.Verdict == Accept && r.Stats.HintRefused == 0
+}
